@@ -24,6 +24,22 @@ Fixpoint spec_descs (complete : bool) (regs : list region) (pos : option N) (des
       end
   end.
 
+(* A fetch of the chunk [s, s+n) may legitimately answer None when: /proc/pid/mem cannot be read there (the
+   synthetic file is too short); the chunk lies wholly beyond the end of the file backing its mapping (the
+   process itself has nothing there); the pagemap cannot be read for its pages (synthetic pagemap too short).
+   Anything else is readable memory that the scan would skip. *)
+Definition region_at (regs : list region) (s : N) : option region :=
+  find (fun r => (r_start r <=? s) && (s <? r_start r + r_len r)) regs.
+
+Definition fetch_may_fail (fs : procfs) (prm : mparams) (regs : list region) (s n : N) : bool :=
+  match read_mem fs s n with None => true | Some _ => false end
+  || match region_at regs s with
+     | Some r => r_backed r
+                 && ((r_fsize r <? (s - r_start r) + r_foff r)
+                     || ((0 <? n / page prm) && (pm_entries fs <? s / page prm + n / page prm)))
+     | None => true
+     end.
+
 Fixpoint epoch_ok (fs : procfs) (prm : mparams) (regs : list region)
          (ops : list pop) (outs : list pout) (descs_rev : list (N * N)) (last : option (N * N))
          (ended : bool) {struct ops} : bool :=
@@ -44,7 +60,12 @@ Fixpoint epoch_ok (fs : procfs) (prm : mparams) (regs : list region)
              end
       | None => false
       end && epoch_ok fs prm regs ops' outs' descs_rev last ended
-  | PFetch :: ops', ONone :: outs' => epoch_ok fs prm regs ops' outs' descs_rev last ended
+  | PFetch :: ops', ONone :: outs' =>
+      (* a fetch may fail only where there is nothing to see or the kernel interface cannot answer *)
+      match last with
+      | Some (ls, ln) => fetch_may_fail fs prm regs ls (N.min ln (round_page (max_fetch prm) (page prm)))
+      | None => true
+      end && epoch_ok fs prm regs ops' outs' descs_rev last ended
   | PReset :: ops', OUnit :: outs' =>
       spec_descs false regs None (rev descs_rev) && epoch_ok fs prm regs ops' outs' [] None false
   | _, _ => false
